@@ -98,9 +98,53 @@ func checkC18(c *Ctx) {
 			}
 		}
 	}
-	c.Ev.Coverage.Evaluations += ndense
+	// short decimals: 1..17 significant digits (the last one non-zero, biased to 1 and 9, so
+	// that the shortest output has exactly that many digits) at every scale 1e-25..1e25 — the
+	// digit-generation code takes its "few digits" exits here, which random patterns
+	// (always 15..17 digits) never reach
+	nshort := 0
+	for nd := 1; nd <= 17; nd++ {
+		for sc := -25; sc <= 25; sc++ {
+			for k := 0; k < c.N(40, 600); k++ {
+				ds := make([]byte, nd)
+				for i := range ds {
+					ds[i] = byte('0' + r.Intn(10))
+				}
+				ds[0] = byte('1' + r.Intn(9))
+				ds[nd-1] = "1199123456789"[r.Intn(13)]
+				if k%5 == 0 && nd > 3 {
+					for i := 1 + r.Intn(nd-2); i < nd-1; i++ {
+						ds[i] = '0' // long zero runs before the last digit: 2.5000001
+					}
+				}
+				f, perr := strconv.ParseFloat(fmt.Sprintf("%se%d", ds, sc-nd+1+r.Intn(3)), 64)
+				if perr != nil || math.IsInf(f, 0) {
+					continue
+				}
+				if k%2 == 1 {
+					f = -f
+				}
+				b := math.Float64bits(f)
+				got, err := simdjson.VerifAppendFloat(nil, f)
+				ej, _ := json.Marshal(f)
+				nshort++
+				if k < 1 {
+					add(f) // a share of them also goes through the model comparison below
+				}
+				if err != nil || string(got) != string(ej) {
+					c.Violate("float", "output differs from encoding/json", "float-stdlib", map[string]interface{}{"lit": fmt.Sprintf("bits=%016x value=%v", b, f), "impl": string(got), "encoding_json": string(ej)})
+					continue
+				}
+				if back, perr := strconv.ParseFloat(string(got), 64); perr != nil || math.Float64bits(back) != b {
+					c.Violate("float", "printed text does not parse back to the identical float64", "float-roundtrip", map[string]interface{}{"lit": fmt.Sprintf("bits=%016x value=%v", b, f), "impl": string(got)})
+				}
+			}
+		}
+	}
+	c.Ev.Coverage.Streams["short-decimals-vs-encoding/json"] = nshort
+	c.Ev.Coverage.Evaluations += ndense + nshort
 	c.Ev.Coverage.Streams["dense-vs-encoding/json"] = ndense
-	c.Ev.Note(fmt.Sprintf("dense stream: %d floats (every binade x %d mantissas) compared with encoding/json and re-parsed; not counted in distinct_nontrivial", ndense, perBinade))
+	c.Ev.Note(fmt.Sprintf("dense stream: %d floats (every binade x %d mantissas) and %d short decimals (1..17 digits x scales 1e-25..1e25) compared with encoding/json and re-parsed; not counted in distinct_nontrivial", ndense, perBinade, nshort))
 	reqs := make([]string, len(bits))
 	for i, b := range bits {
 		reqs[i] = fmt.Sprintf("float %016x", b)
